@@ -459,14 +459,6 @@ ares_status_t ares_sconfig_append(const ares_channel_t   *channel,
     return ARES_ENOMEM; /* LCOV_EXCL_LINE: OutOfMemory */
   }
 
-  if (*sconfig == NULL) {
-    *sconfig = ares_llist_create(ares_free);
-    if (*sconfig == NULL) {
-      status = ARES_ENOMEM; /* LCOV_EXCL_LINE: OutOfMemory */
-      goto fail;            /* LCOV_EXCL_LINE: OutOfMemory */
-    }
-  }
-
   memcpy(&s->addr, addr, sizeof(s->addr));
   s->udp_port = udp_port;
   s->tcp_port = tcp_port;
@@ -484,6 +476,17 @@ ares_status_t ares_sconfig_append(const ares_channel_t   *channel,
     if (status != ARES_SUCCESS) {
       status = ARES_SUCCESS;
       goto fail;
+    }
+  }
+
+  /* Create the list only for an entry that is kept: a list left empty by
+   * dropped entries would be taken for "no servers at all" and replace a
+   * working configuration on reinit */
+  if (*sconfig == NULL) {
+    *sconfig = ares_llist_create(ares_free);
+    if (*sconfig == NULL) {
+      status = ARES_ENOMEM; /* LCOV_EXCL_LINE: OutOfMemory */
+      goto fail;            /* LCOV_EXCL_LINE: OutOfMemory */
     }
   }
 
